@@ -27,6 +27,7 @@ def run(ctx):
     ctx.rule("role-complement", "initiator write index == responder read index for every operation")
     ctx.rule("conversion-moves", "conversions keep the cipher pair, role and key flags")
     ctx.rule("keypair", "generate_keypair returns the generated key pair")
+    ctx.rule("limit-exact", "every payload up to the maximum is accepted: the 65535-byte limit is applied exactly on both sides")
     ctx.trust("rustc MIR; snowfacts; spec/processing.py")
     for cfg in ctx.cfgs:
         F = ctx.facts[cfg]
@@ -63,6 +64,8 @@ def run(ctx):
         ctx.floor("role-complement", k, 8, cfg)
         conversions(ctx, cfg)
         keypair(ctx, cfg)
+        from .C14 import limit_exact
+        limit_exact(ctx, cfg)
 
 
 def conversions(ctx, cfg):
